@@ -497,7 +497,9 @@ pub fn clone_spec(b: &Built, sc: &Scenario, archive: String) -> CloneSpec {
         seeds: b.seed_paths.clone(),
         stdin_seed: b.stdin_seed.is_some(),
         seed_output: matches!(sc.out_kind, OutKind::InPlace | OutKind::BlockDev),
-        force: sc.out_kind == OutKind::Force,
+        // --force-create alone replaces an existing file; given together with --seed-output
+        // (a third of the in-place scenarios) it must change nothing about the in-place update.
+        force: sc.out_kind == OutKind::Force || (matches!(sc.out_kind, OutKind::InPlace | OutKind::BlockDev) && (sc.src_seed >> 17) % 3 == 0),
         verify_output: sc.verify_output,
         verify_header: None,
         buffered: sc.buffered,
